@@ -1,4 +1,4 @@
-import AndaVerif.Model.Belief
+import AndaVerif.Proofs.BeliefTable
 import Mathlib.Tactic.Linarith
 import Mathlib.Tactic.Ring
 import Mathlib.Tactic.Positivity
